@@ -3,6 +3,8 @@ import WK.Spec.C22
   C22 — primitive lemmas: fixed-width integers, length-prefixed strings, the
   remaining-length varint, the fixed header byte, the write combinator.
 -/
+deriving instance DecidableEq for Except
+
 namespace WK.C22
 
 /-! ### big-endian integers and strings -/
